@@ -10,3 +10,6 @@ package keyfile
 //@ func OpenOrWritePrivKey
 //@   noframe
 //@   ensures ret1 == nil ==> ret0 != nil
+// An existing file is never treated as absent: success on an existing path means the key was
+// parsed from that file's contents (an empty or non-key file is an error).
+//@   ensures ret1 == nil && fileExists(privKeyPath) ==> pemPrivKeyOK(fileData(privKeyPath))
